@@ -17,9 +17,12 @@ def main(argv):
     tier = 'quick'
     names = []
     it = iter(argv)
+    as_pid = None
     for a in it:
         if a == '--tier':
             tier = next(it)
+        elif a == '--as':          # run another property's check against the seed (result recorded under 'also')
+            as_pid = next(it)
         else:
             names.append(a)
     sd = os.path.join(VERIF, 'seeded')
@@ -29,7 +32,7 @@ def main(argv):
     for name in names:
         d = os.path.join(sd, name)
         meta = json.load(open(os.path.join(d, 'meta.json')))
-        pid = meta['property']
+        pid = as_pid or meta['property']
         scratch = f'/tmp/repo_seed_{name}'
         shutil.rmtree(scratch, ignore_errors=True)
         subprocess.run(['rsync', '-a', '--exclude', '.git', '/repo/', scratch + '/'], check=True)
@@ -52,8 +55,20 @@ def main(argv):
                 what = rj.get('what') or (rj.get('no_longer_checks') or [{}])[0].get('name')
             except Exception:
                 what = None
-        results[name] = {'property': pid, 'applies': True, 'caught': bool(viol), 'exit': r.returncode, 'tier': tier,
-                         'violation_lines': viol[:3], 'kind': kind, 'what': what if viol else None, 'wall_s': round(time.time() - t0, 1)}
+        rec = {'property': pid, 'applies': True, 'caught': bool(viol), 'exit': r.returncode, 'tier': tier,
+               'violation_lines': viol[:3], 'kind': kind, 'what': what if viol else None, 'wall_s': round(time.time() - t0, 1)}
+        if as_pid:
+            prev = {}
+            rp0 = os.path.join(d, 'result.json')
+            if os.path.exists(rp0):
+                prev = json.load(open(rp0))
+            prev.setdefault('also', {})[as_pid] = rec
+            results[name] = prev
+        else:
+            rp0 = os.path.join(d, 'result.json')
+            if os.path.exists(rp0) and 'also' in json.load(open(rp0)):
+                rec['also'] = json.load(open(rp0))['also']
+            results[name] = rec
         print(name, pid, 'CAUGHT' if viol else 'MISSED', kind, (what or '')[:100] if viol else '', f'{time.time() - t0:.0f}s')
         shutil.rmtree(scratch, ignore_errors=True)
         import hashlib
